@@ -116,6 +116,21 @@ theorem stepGen_eq (w : World) (ht : Typed w) (op : Op) : stepGen w op = step w 
           cases hm : w.map? i with
           | none => simp [mapVal, hm]
           | some m => simp [mapVal, hm, MapMemory_Put_some, mapStore]
+  | putself r dst src n =>
+    simp only [stepGen, step]
+    cases hv : w.var r with
+    | none => first | rfl | simp [*]
+    | some h =>
+      cases h with
+      | dm i =>
+        cases hs : w.slice? i with
+        | none => first | rfl | simp [*]
+        | some l =>
+          simp only [hs, DumbMemory_Put_eq]
+          rfl
+      | dio i => first | rfl | simp [*]
+      | other => first | rfl | simp [*]
+      | mm x => first | rfl | simp [*]
   | inp r p =>
     simp only [stepGen, step]
     cases hv : w.var r with
@@ -432,6 +447,26 @@ theorem typed_step (w : World) (ht : Typed w) (op : Op) : Typed (step w op).1 :=
           cases hp : slicePut l a.toNat data with
           | none => simpa using ht
           | some l' => exact typed_store_slice w i _ ht (by simp [hs])
+      | dio i => simpa [hv] using ht
+      | other => simpa [hv] using ht
+  | putself r dst src n =>
+    simp only [step]
+    cases hv : w.var r with
+    | none => simpa [hv] using ht
+    | some h =>
+      cases h with
+      | mm x => simpa [hv] using ht
+      | dm i =>
+        cases hs : w.slice? i with
+        | none => simpa [hv, hs] using ht
+        | some l =>
+          simp only [hv, hs]
+          by_cases hle : src + n ≤ l.length
+          · simp only [hle, if_true]
+            cases hp : slicePut l dst.toNat ((l.drop src).take n) with
+            | none => simpa using ht
+            | some l' => exact typed_store_slice w i _ ht (by simp [hs])
+          · simpa [hle] using ht
       | dio i => simpa [hv] using ht
       | other => simpa [hv] using ht
   | clear r =>
